@@ -160,7 +160,15 @@ class FnWorld:
             call = {"callNext": "call_next", "recurse": "recurse", "next": "F.next"}[body[0]]
             lines.append("    DOWN()")
             lines.append("    try:")
-            lines.append(f"        return {call}({', '.join(args)})")
+            inner = f"{call}({', '.join(args)})"
+            # the same delegation written inside a nested code object now and then (lambda, generator expression):
+            # the rewrite has to reach into nested code, and so has everything that shares rewritten code
+            style = (mid * 7 + len(args) + len(self.sc["defs"])) % 4 if body[0] == "recurse" else 0
+            if style == 1:
+                inner = f"(lambda: {inner})()"
+            elif style == 2:
+                inner = f"next({inner} for _ in (0,))"
+            lines.append(f"        return {inner}")
             lines.append("    finally:")
             lines.append("        UP()")
         src = "\n".join(lines) + "\n"
